@@ -15,7 +15,9 @@ ANCHORS = [
 ]
 DECIDING = ["writer:write_extended_prefix_map", "writer:write_jsonld_context", "writer:write_shacl", "writer:write_tsv"]
 RULE = (
-    "case = strict converter of 1-4 records (records with and without synonyms side by side, patterns in half of them) "
+    "case = strict converter of 1-4 records (records with and without synonyms side by side, patterns in half of them; "
+    "a third of the converters are built from bare prefix/URI-prefix pairs that acquire their synonyms later through "
+    "merging add_prefix / add_record calls or chain) "
     "whose strings are drawn per format: extended prefix map - arbitrary Unicode scalar values incl. quotes, angle "
     "brackets, newlines, tabs, carriage returns; JSON-LD - the printable alphabet, non-empty prefixes not starting with "
     "'@'; SHACL and TSV - printable characters without double quote, angle brackets and control characters (backslash, "
@@ -51,7 +53,19 @@ def gconv(api, rng, alpha, nonempty_prefix):
                 tuple(rstr(rng, alpha, 1, 5) for _ in range(rng.randint(1, 2))) if rng.random() < 0.45 else (),
                 rstr(rng, alpha, 0, 6) if rng.random() < 0.5 else None,
             ))
-        if spec.is_unique(recs) and not any(spec.self_clash(r) for r in recs):
+        if spec.is_unique(recs) and not any(spec.self_clash(r) for r in recs) and len({x for r in recs for x in spec.all_p(r)}) == sum(len(spec.all_p(r)) for r in recs) \
+                and len({x for r in recs for x in spec.all_u(r)}) == sum(len(spec.all_u(r)) for r in recs):
+            if rng.random() < 0.35:
+                # a converter with a past: bare records that acquired their synonyms through merges / chain
+                o = call(gen.build, api, recs, ":", rng, "grown-by-merge")
+                if o[0] == "ret":
+                    c = o[1][0]
+                    if rng.random() < 0.3:
+                        o2 = call(api.chain, [c])
+                        if o2[0] == "ret":
+                            c = o2[1]
+                    return c, list(spec.snapshot(c))
+                continue
             o = call(api.Converter, [gen.mk_record(api, r) for r in recs])
             if o[0] == "ret":
                 return o[1], recs
